@@ -449,6 +449,185 @@ def run_realtime(case, alarm_s=12):
         signal.signal(signal.SIGALRM, old)
 
 
+# ---------------------------------------------------------------------------------------
+# concurrent `search` calls with repeated texts and a gated model (no wall-clock dependence)
+
+
+class _StubAnnoy:
+    """Stands in for the Annoy index: the neighbour of a vector is the item whose text the vector
+    is the fake embedding of, so a search result names the text whose embedding was used."""
+
+    def __init__(self, texts):
+        self.texts = list(texts)
+
+    def get_nns_by_vector(self, v, n, include_distances=False):
+        try:
+            i = self.texts.index(decode_vec(list(v)))
+        except (ValueError, TypeError):
+            return ([], []) if include_distances else []
+        return ([i], [0.0]) if include_distances else [i]
+
+
+def run_search_case(case, alarm_s=8):
+    """case: {batching, max, cache, alphabet, texts, program}.  program actions: ["start", i],
+    ["release", j] (let the j-th pending model call return), ["tick"], ["flush"]."""
+    import nemoguardrails.embeddings.basic as basic
+    from nemoguardrails.embeddings.index import IndexItem
+
+    def make():
+        kw = {}
+        if case.get("cache"):
+            kw["cache_config"] = {"enabled": True, "key_generator": case["cache"], "store": "in_memory", "store_config": {}}
+        ix = basic.BasicEmbeddingsIndex(embedding_model="fake-0", embedding_engine="verif_fake",
+                                        use_batching=case["batching"], max_batch_size=case["max"], max_batch_hold=0.0, **kw)
+        ix._items = [IndexItem(text=t, meta={}) for t in case["alphabet"]]
+        ix.embeddings_index = _StubAnnoy(case["alphabet"])
+        return ix
+
+    pending = []
+
+    class Gate(FakeModel):
+        async def encode_async(self, texts):
+            self.calls.append(list(texts))
+            if self.d is not None:
+                fut = asyncio.get_event_loop().create_future()
+                pending.append(fut)
+                await fut
+            return [fake_emb(t) for t in texts]
+
+    results = {}
+
+    async def flush():
+        loop = asyncio.get_event_loop()
+        for _ in range(10000):
+            await asyncio.sleep(0)
+            if not loop._ready:
+                return
+
+    async def main():
+        # what a fresh sequential search of each text returns
+        expected = {}
+        for t in case["alphabet"]:
+            ix0 = make()
+            ix0._model = Gate(None)
+            expected[t] = [it.text for it in await ix0.search(t, max_results=3)]
+        ix = make()
+        ix._model = Gate(True)
+        started = set()
+
+        async def one(i):
+            try:
+                r = await ix.search(case["texts"][i], max_results=3)
+                results[i] = ["ok", [it.text for it in r]]
+            except Exception as e:  # noqa: BLE001
+                results[i] = ["exc", repr(e)]
+
+        def start(i):
+            if i not in started:
+                started.add(i)
+                asyncio.get_event_loop().create_task(one(i))
+
+        def release(j):
+            p = [f for f in pending if not f.done()]
+            if p:
+                p[j % len(p)].set_result(None)
+
+        n = len(case["texts"])
+        for a in case["program"]:
+            if a[0] == "start":
+                start(a[1])
+            elif a[0] == "release":
+                release(a[1])
+            elif a[0] == "tick":
+                await asyncio.sleep(0)
+            elif a[0] == "flush":
+                await flush()
+        for _ in range(20 * n + 50):
+            await flush()
+            if len(results) == n:
+                break
+            if any(not f.done() for f in pending):
+                release(0)
+            elif len(started) < n:
+                start(min(set(range(n)) - started))
+            else:
+                break
+        await flush()
+        return {"results": {str(i): r for i, r in results.items()}, "expected": expected}
+
+    loop = asyncio.new_event_loop()
+    asyncio.set_event_loop(loop)
+    old = signal.signal(signal.SIGALRM, _alarm)
+    signal.alarm(alarm_s)
+    try:
+        return loop.run_until_complete(main())
+    except HangAbort:
+        return {"hang": True}
+    except Exception as e:  # noqa: BLE001
+        return {"crash": repr(e)}
+    finally:
+        signal.alarm(0)
+        signal.signal(signal.SIGALRM, old)
+        try:
+            for t in asyncio.all_tasks(loop):
+                t.cancel()
+            loop.run_until_complete(asyncio.sleep(0))
+        except BaseException:  # noqa: BLE001
+            pass
+        loop.close()
+        asyncio.set_event_loop(None)
+
+
+def gen_search_case(rng):
+    alphabet = rng.sample(TEXT_POOL, rng.choice([2, 2, 3]))
+    n = rng.randint(3, 6)
+    texts = [rng.choice(alphabet) for _ in range(n)]
+    order = list(range(n))
+    rng.shuffle(order)
+    prog = []
+    extra = rng.randint(0, 4)
+    while order or extra > 0:
+        x = rng.random()
+        if order and x < 0.45:
+            prog.append(["start", order.pop()])
+            if rng.random() < 0.6:
+                prog.append(["tick"])
+        elif x < 0.75:
+            prog.append(["release", rng.randrange(4)])
+            prog.append(["flush"] if rng.random() < 0.7 else ["tick"])
+        elif x < 0.9:
+            prog.append(["tick"])
+        else:
+            prog.append(["flush"])
+        if not order:
+            extra -= 1
+    batching = rng.random() < 0.5
+    return {"kind": "search", "batching": batching, "max": rng.randint(1, 3),
+            "cache": rng.choice([None, None, None, "md5", "hash"]),
+            "alphabet": alphabet, "texts": texts, "program": prog}
+
+
+def oracle_search(case, r):
+    tag = ":batching" if case["batching"] else ""
+    if r.get("hang"):
+        return [("search:BasicEmbeddingsIndex.search:never-yields" + tag, "the event loop never got control back")]
+    if r.get("crash"):
+        return [("search:harness-crash" + tag, r["crash"])]
+    bad = []
+    for i, t in enumerate(case["texts"]):
+        x = r["results"].get(str(i))
+        want = r["expected"].get(t)
+        if x is None:
+            bad.append(("search:BasicEmbeddingsIndex.search:never-completes" + tag,
+                        f"search {i} ({t!r}) never completed although every model call returned"))
+        elif x[0] == "exc":
+            bad.append(("search:BasicEmbeddingsIndex.search:raises" + tag, f"search {i} ({t!r}) raised {x[1]}"))
+        elif x[1] != want or want != [t]:
+            bad.append(("search:BasicEmbeddingsIndex.search:foreign-result" + tag,
+                        f"concurrent search {i} for {t!r} returned the neighbours {x[1]!r}; a fresh sequential search of {t!r} returns {want!r}"))
+    return bad
+
+
 def child_main(infile, outfile):
     sys.path.insert(0, C.REPO)
     import nemoguardrails.embeddings.basic  # noqa: F401  (slow import: before any alarm is armed)
@@ -458,6 +637,8 @@ def child_main(infile, outfile):
         for c in cases:
             if c.get("kind") == "realtime":
                 r = run_realtime(c)
+            elif c.get("kind") == "search":
+                r = run_search_case(c)
             elif c.get("kind") in ("cache", "multi"):
                 try:
                     o, fin = run_cache_case(c) if c["kind"] == "cache" else run_multi_case(c)
@@ -1154,8 +1335,9 @@ def run(tier, seed, replay=None):
     n_sched = 500 if tier == "quick" else 20000
     n_rt = 24 if tier == "quick" else 200
     n_multi = 400 if tier == "quick" else 4000
+    n_search = 800 if tier == "quick" else 8000
     if amplified and tier == "quick":
-        n_cache, n_sched, n_rt, n_multi = n_cache * 4, n_sched * 6, n_rt * 3, n_multi * 4
+        n_cache, n_sched, n_rt, n_multi, n_search = n_cache * 4, n_sched * 6, n_rt * 3, n_multi * 4, n_search * 4
 
     base_dir = tempfile.mkdtemp(prefix="verif_c19_")
     corpus_dir = os.path.join(C.VERIF, "corpus", PID)
@@ -1168,7 +1350,7 @@ def run(tier, seed, replay=None):
     if replay:
         d = json.load(open(replay))
         pre_cases = [d.get("replay", d)]
-        n_cache = n_sched = n_rt = n_multi = 0
+        n_cache = n_sched = n_rt = n_multi = n_search = 0
     for j, c in enumerate(pre_cases):  # private directories
         if c.get("kind") == "cache":
             c["dir"] = os.path.join(base_dir, f"pc{j}")
@@ -1321,7 +1503,10 @@ def run(tier, seed, replay=None):
         scheds = [c for c in pre_cases if c.get("kind") == "trace"]
         scheds += [gen_schedule(rng, base_dir, k) for k in range(n_sched)]
         rts = [c for c in pre_cases if c.get("kind") == "realtime"] + [gen_realtime(rng) for _ in range(n_rt)]
+        rts += [c for c in pre_cases if c.get("kind") == "search"] + [gen_search_case(rng) for _ in range(n_search)]
         obs, logs = run_children(scheds + rts, "run", 420 if tier == "quick" else 3000)
+        n_searches = 0
+        search_overlap = 0
         tterms, tkept = [], []
         trace_steps = 0
         tdist = {"max": {}, "n": {}, "mode": {}, "labels": {}}
@@ -1331,6 +1516,18 @@ def run(tier, seed, replay=None):
             if r is None:
                 continue
             n_done += 1
+            if case["kind"] == "search":
+                n_searches += 1
+                for sig, what in oracle_search(case, r):
+                    tviol.append((sig, what, case))
+                h = C.canon_hash(["search", case["batching"], case["max"], case["program"],
+                                  [case["alphabet"].index(t) for t in case["texts"]]])
+                if h not in seen:
+                    seen.add(h)
+                    if len(set(case["texts"])) < len(case["texts"]):
+                        n_nontrivial += 1
+                        search_overlap += 1
+                continue
             if case["kind"] == "realtime":
                 rr = dict(r)
                 if "results" in rr:
@@ -1393,7 +1590,7 @@ def run(tier, seed, replay=None):
                 seen_sig[sig] = (size, what, case)
         for sig, (_sz, what, case) in seen_sig.items():
             cc = json.loads(json.dumps(case))
-            if cc["cfg"].get("cache"):
+            if (cc.get("cfg") or {}).get("cache"):
                 cc["cfg"]["cache"].pop("dir", None)
             out.findings.append(C.Finding(sig, what, cc))
         t_batch = time.time() - t0
@@ -1403,7 +1600,7 @@ def run(tier, seed, replay=None):
     out.coverage.update({
         "evaluations": len(terms) + len(mterms) + len(tterms) + len(rts),
         "distinct_nontrivial": n_nontrivial,
-        "rule": "several indexes: >=2 indexes with the cache enabled and calls on >=2 of them; cache: cache enabled, >=2 texts in play and (>=2 calls on one store or a duplicate inside one call); "
+        "rule": "search: 3-6 overlapping search() calls over 2-3 texts with a repeated text, gated model, batching on/off; several indexes: >=2 indexes with the cache enabled and calls on >=2 of them; cache: cache enabled, >=2 texts in play and (>=2 calls on one store or a duplicate inside one call); "
                 "batch: >=2 requests and (>=2 batches or a request that found the queue full and waited for "
                 "_current_batch_submitted); distinct by hash of the Coq case term (cache) / of (max_batch_size, cache mode, label sequence) (batch)",
         "samples": [{k: v for k, v in s.items() if k != "dir" and not k.startswith("_")} for s in kept[:2]]
@@ -1412,7 +1609,8 @@ def run(tier, seed, replay=None):
         "input_distribution": {"cache_configs": dist, "trace": tdist, "corpus_cases": corpus_n,
                                "several_indexes_cases": {**mdist, "total": len(mterms),
                                                          "colliding_generator_cases_where_impl_and_model_both_return_a_foreign_vector": multi_shared_shown},
-                               "realtime_unwrapped_runs": len(rts),
+                               "realtime_unwrapped_runs": len(rts) - n_searches,
+                               "concurrent_search_cases": {"total": n_searches, "distinct_with_a_repeated_text": search_overlap},
                                "colliding_generator_cases_where_impl_and_model_both_return_a_wrong_vector": collisions_shown},
         "traces_validated_against_impl": len(tterms),
         "trace_steps_replayed": trace_steps,
